@@ -12,8 +12,12 @@ def gen_status(ck):
     return True
 
 
-def run_family(ck, fname, scs, propfn, keyprefix, what):
-    codes, impl = simrun.run_batch(scs, name=ck.pid.lower() + fname)
+def run_family(ck, fname, scs, propfn, keyprefix, what, hyp=False):
+    hyps = None
+    if hyp:
+        codes, impl, hyps = simrun.run_batch(scs, name=ck.pid.lower() + fname, hyp=True)
+    else:
+        codes, impl = simrun.run_batch(scs, name=ck.pid.lower() + fname)
     mism = [i for i, c in enumerate(codes) if c >= 1000]
     amb = sum(1 for c in codes if c == 1)
     pf = []
@@ -23,8 +27,19 @@ def run_family(ck, fname, scs, propfn, keyprefix, what):
     nreq = sum(len(io["requests"]) for io in impl)
     nfr = sum(len(o["frags"]) for io in impl for o in io["final"])
     nontriv = len({json.dumps(s["script"], sort_keys=True) for s, io in zip(scs, impl) if any(o["frags"] for o in io["final"]) or len(io["packages"]) > 2})
+    hd = {}
+    if hyps is not None:
+        # side conditions of the whole-run theorem: bit 1 says whether the scenario is inside the theorem's domain (no removal, no
+        # reconciled SP, positive ladders); bit 0 (placement packages find their order as created) must hold on EVERY scenario of the
+        # domain (outside it a runner removal may void an order before its placement is executed)
+        bad = [i for i, h in enumerate(hyps) if h == 2]
+        hd = {"in_theorem_domain": sum(1 for h in hyps if h >= 2), "in_domain_and_guard_holds": sum(1 for h in hyps if h == 3),
+              "guard_holds_any": sum(1 for h in hyps if h % 2 == 1)}
+        if bad:
+            ck.broken.append({"kind": "hypothesis", "what": "run_guard_b (hypothesis of C04_run_conserves) is false on scenario(s) of family " + fname,
+                              "first": bad[:3], "scenarios": [{"index": i, "scenario": scs[i]} for i in bad[:2]]})
     ck.family(fname, len(scs), nontriv, mism, sorted({i for i, *_ in pf}), ambiguous=amb,
-              dist={"scenarios": len(scs), "requests": nreq, "packages": sum(len(io["packages"]) for io in impl), "fragments": nfr,
+              dist={**hd, "scenarios": len(scs), "requests": nreq, "packages": sum(len(io["packages"]) for io in impl), "fragments": nfr,
                     "runs_aborted_by_impl": sum(1 for io in impl if io["error"]), "events": sum(len(simgen.event_order(s)) for s in scs)},
               samples=[{"family": fname, "scenario_script": scs[0]["script"][:2], "final_orders": impl[0]["final"][:1]}])
     seen = set()
